@@ -19,7 +19,7 @@ TInit == run = NoRun /\ cur = [k |-> 1, settle |-> "none", delay |-> -1] /\ exp 
 
 TReset == /\ Is("reset")
           /\ run' = [chain |-> Ev.chain, script |-> Ev.script, cfg |-> Ev.cfg, corr |-> Ev.corr]
-          /\ cur' = [k |-> 1, settle |-> "none", delay |-> -1] /\ exp' = NoExp /\ hi' = -1 /\ Adv
+          /\ cur' = [k |-> 1, settle |-> (IF Has("settle0") THEN Ev.settle0 ELSE "none"), delay |-> -1] /\ exp' = NoExp /\ hi' = -1 /\ Adv
 TCall  == /\ Is("call") /\ hi = -1
           /\ exp' = Run(run.chain, 1, Fresh(cur.k, cur.settle, run.corr, cur.delay), run.script, run.cfg)
           /\ hi' = 0 /\ UNCHANGED <<run, cur>> /\ Adv
